@@ -18,7 +18,7 @@ from checks import c01_read as R
 
 LEVEL = "proof"
 MODULE = "Sqfs.Props.C01"
-UNITS_OPTIONAL = True          # <<< the orchestrator sets this to False when the Lean/unit half (c01_units.py) is merged
+UNITS_OPTIONAL = False         # the Lean/unit half (c01_units.py) is merged: its absence is a broken obligation
 
 WORKERS_QUICK, WORKERS_THOROUGH = 6, 12
 MAX_REPORTS = 10               # distinct VIOLATION lines per run (each with a shrunk replay); the rest is counted
@@ -476,10 +476,33 @@ def run(ctx):
     caps = probe_caps(ctx)
     ctx.log("built gensquashfs, rdsquashfs (ASan+UBSan), unz; sandbox capabilities: " + ", ".join(k for k, v in sorted(caps.items()) if v is True))
     env = R.Env(ctx, gen, rd, unz, caps)
-    if units is not None:
-        units.run_units(ctx, stats)
-
     cases = corpus_cases() + plan(ctx)
+    # the unit-level tie (real library functions vs the Lean models) runs beside the tool-level cases
+    unit_box = {"counts": (0, 0, 0), "error": None}
+    def unit_job():
+        try:
+            unit_box["counts"] = units.run_units(ctx, stats) or (0, 0, 0)
+            ctx.log("unit-level tie done: %d ops, %d classes, %d disagreements" % tuple(unit_box["counts"]))
+        except Exception as e:
+            unit_box["error"] = e
+    unit_thread = None
+    if units is not None:
+        import threading
+        # TEMPORARY (delete once c01_units.run_real passes errors="replace" itself): the harness' stderr is decoded as strict
+        # UTF-8 there and one stray byte kills the whole check with UnicodeDecodeError
+        import subprocess as _sp
+        class _TolerantSubprocess:
+            def __getattr__(self, name):
+                return getattr(_sp, name)
+            @staticmethod
+            def run(*a, **kw):
+                if kw.get("text") and "errors" not in kw:
+                    kw["errors"] = "replace"
+                return _sp.run(*a, **kw)
+        if getattr(units, "subprocess", None) is _sp:
+            units.subprocess = _TolerantSubprocess()
+        unit_thread = threading.Thread(target=unit_job)
+        unit_thread.start()
     skipped = {}
     todo = []
     for c in cases:
@@ -501,6 +524,11 @@ def run(ctx):
             if (k + 1) % 200 == 0:
                 ctx.log("%d/%d cases done" % (k + 1, len(todo)))
     ctx.log("all cases evaluated in %.0f s" % (time.time() - t_start))
+    if unit_thread is not None:
+        unit_thread.join()
+        if unit_box["error"] is not None:
+            raise unit_box["error"]
+    stats["_unit_counts"] = list(unit_box["counts"])
     summarize(ctx, env, results, skipped, caps, stats)
     return ctx.finish(LEVEL, trusted_extra=[
         "tool-level tie: tools/checks/c01*.py (generators, the Python oracle written from gensquashfs(1)/rdsquashfs(1), read-back comparisons), "
@@ -624,10 +652,13 @@ def summarize(ctx, env, results, skipped, caps, stats):
         ctx.log("%d further mismatch classes not reported separately (limit %d reports per run)" % (suppressed, MAX_REPORTS))
     slow = sorted(results, key=lambda cr: -cr[1].get("t", 0))[:4]
     ctx.log("slowest cases: %s" % [(c.get("name"), r.get("t")) for c, r in slow])
+    uc = stats.pop("_unit_counts", [0, 0, 0])
     ctx.cov.update(stats)
     ctx.cov.update({
-        "evaluations": len(results),
-        "distinct_nontrivial": len(nontrivial),
+        "evaluations": len(results) + uc[0],
+        "distinct_nontrivial": len(nontrivial) + uc[1],
+        "tool_level_cases": len(results),
+        "tool_level_nontrivial": len(nontrivial),
         "images_packed_and_read_back": packed,
         "inputs_refused_as_expected": refused,
         "cases_skipped_for_sandbox_limits": skipped,
@@ -641,7 +672,7 @@ def summarize(ctx, env, results, skipped, caps, stats):
         },
         "histograms": hist,
         "samples": samples,
-        "disagreements_checked": sum(len(r["mism"]) for _, r in results),
+        "disagreements_checked": sum(len(r["mism"]) for _, r in results) + uc[2],
         "rule": "cases = boundary matrix of the quantifier (directory sizes around 256 entries / 8 KiB metadata / 64 KiB listings; file sizes 0,1,kB-1,kB,kB+1 "
                 "for B in 4K..1M; zero/sparse/duplicate/shared-tail contents; 1..4097 (thorough 65535/65536) ids; 0..2048 xattr sets around multiples of 512; "
                 "every inode type; special names; hard-link groups; glob lines; refusals) + seeded random trees in the three input modes x seeded options; "
@@ -660,6 +691,10 @@ def replay(ctx, path):
     body = json.loads(open(path).read())
     rp = body.get("replay", body)
     case = rp.get("case")
+    if rp.get("kind") == "unit":
+        from checks import c01_units
+        ctx.lean_build(["sqfsmodel"])
+        return 1 if c01_units.replay_unit(ctx, rp) else 0
     if not case:
         print("replay file names a broken obligation, no input to replay:", json.dumps(rp)[:500])
         return 1
